@@ -160,9 +160,20 @@ def _run_one(args):
         plan["run_index"] = run_index
         plan["tier"] = tier
         from sim import seams
+        # configuration of the process, drawn after the plan so that the plan itself does not depend on it
+        er = rng.random()
+        if not (opts and opts.get("no_env")):
+            if er < 0.10:
+                plan["env"] = {"pandas_cow": True}
+            elif er < 0.125:
+                plan["env"] = {"py_optimize": True}       # (a new interpreter per run: a few seconds each, hence the small share)
+            elif er < 0.225:
+                plan["env"] = {"tz": ["Asia/Tokyo", "America/Los_Angeles", "Europe/Berlin", "Asia/Kolkata"][int(er * 1000) % 4]}
         with seams.solver_guard():
-            res = mod.execute(plan)
+            res = exec_with_env(prop, mod, plan, cap_s)
         out.update(res)
+        if plan.get("env"):
+            out["env"] = plan["env"]
         if res.get("violation") is not None or run_index % 500 < 2 or (opts and opts.get("keep_plan")):
             out["plan"] = plan
     except RunTimeout as e:
@@ -189,9 +200,81 @@ def execute_plan(prop, plan, cap_s=600):
     from sim import seams
     try:
         with seams.solver_guard():
-            return mod.execute(plan)
+            return exec_with_env(prop, mod, plan, cap_s)
     finally:
         _disarm(old)
+
+
+def exec_with_env(prop, mod, plan, cap_s=600):
+    """Execute a plan under the process configuration it names (plan['env'])."""
+    from sim import seams
+    env = plan.get("env") or {}
+    if env.get("py_optimize") and not sys.flags.optimize:
+        return exec_in_optimized_interpreter(prop, plan, cap_s)
+    with seams.process_env(env):
+        return mod.execute(plan)
+
+
+def exec_in_optimized_interpreter(prop, plan, cap_s):
+    """`python -O` (PYTHONOPTIMIZE): assert statements are compiled out.  Needs a new interpreter; the plan travels as a file,
+    the result comes back as one JSON line."""
+    import tempfile
+    fd, path = tempfile.mkstemp(prefix="verif_plan_", suffix=".json")
+    try:
+        with os.fdopen(fd, "w") as f:
+            json.dump(plan, f)
+        env = dict(os.environ)
+        env["PYTHONHASHSEED"] = env.get("PYTHONHASHSEED", "0")
+        env.pop("PYTHONOPTIMIZE", None)
+        try:
+            p = subprocess.run([PY, "-O", "-m", "sim.cli", "exec-plan", prop, path, str(int(cap_s))], capture_output=True, text=True,
+                               timeout=cap_s * 4 + 120, env=env, cwd=VERIF)
+        except subprocess.TimeoutExpired:
+            raise RunTimeout("optimised interpreter exceeded the wall allowance")
+        line = [l for l in p.stdout.splitlines() if l.startswith("RESULT ")]
+        if not line:
+            raise HarnessError("optimised interpreter gave no result (exit %s): %s" % (p.returncode, (p.stderr or p.stdout)[-1500:]))
+        res = json.loads(line[-1][7:])
+        if res.get("_abandoned"):
+            raise RunTimeout(res["_abandoned"])
+        if res.get("_harness_error"):
+            raise HarnessError(res["_harness_error"])
+        return res
+    finally:
+        try:
+            os.remove(path)
+        except OSError:
+            pass
+
+
+def exec_plan_main(argv):
+    """Entry of the optimised child interpreter: `sim.cli exec-plan <prop> <plan file> <cap>`."""
+    prop, path, cap = argv[0], argv[1], int(argv[2])
+    with open(path) as f:
+        plan = json.load(f)
+    try:
+        res = execute_plan(prop, plan, cap)
+    except RunTimeout as e:
+        res = {"_abandoned": "cpu-cap in optimised interpreter: %s" % e}
+    except BaseException as e:  # noqa
+        res = {"_harness_error": "%s: %s\n%s" % (type(e).__name__, e, traceback.format_exc()[-2000:])}
+    sys.stdout.write("\nRESULT " + json.dumps(res, default=_jsonable) + "\n")
+    sys.stdout.flush()
+    return 0
+
+
+def _jsonable(o):
+    try:
+        import numpy as np
+        if isinstance(o, np.generic):
+            return o.item()
+        if isinstance(o, np.ndarray):
+            return o.tolist()
+    except Exception:
+        pass
+    if isinstance(o, (set, frozenset, tuple)):
+        return sorted(o) if isinstance(o, (set, frozenset)) else list(o)
+    return str(o)
 
 
 def _exec_for_pool(args):
@@ -506,6 +589,10 @@ def main_check(prop, argv):
     agg = mod.aggregate(results)
     agg["pinned_plans_run"] = pinned_runs
     agg["runs_abandoned_at_cpu_cap"] = [r["run_index"] for r in abandoned]
+    agg["process_configurations"] = {"default": sum(1 for r in results if not r.get("env")),
+                                     "pandas_copy_on_write": sum(1 for r in results if (r.get("env") or {}).get("pandas_cow")),
+                                     "python_-O_(asserts_compiled_out,_new_interpreter_per_run)": sum(1 for r in results if (r.get("env") or {}).get("py_optimize")),
+                                     "machine_in_another_time_zone": sum(1 for r in results if (r.get("env") or {}).get("tz"))}
     agg["slowest_runs_cpu_s"] = [[r["run_index"], round(r.get("cpu_s", 0.), 1)] for r in
                                  sorted(results, key=lambda r: -r.get("cpu_s", 0.))[:5]]
     if a.digests:
